@@ -80,7 +80,7 @@ theorem fullRune_of_length (p : Bytes) (h : utfMax ≤ p.length) : fullRune p = 
 theorem decodeRune_append_of_length (p q : Bytes) (h : utfMax ≤ p.length) : decodeRune (p ++ q) = decodeRune p :=
   decodeRune_append_of_full p q (fullRune_of_length p h)
 
-/-- the ASCII fast path of `bufio.ReadRune` (bufio.go:313) agrees with `DecodeRune` -/
+/-- the ASCII fast path of `bufio.ReadRune` (bufio.go:314) agrees with `DecodeRune` -/
 theorem decodeRune_ascii (c : UInt8) (t : Bytes) (h : c.toNat < 0x80) : decodeRune (c :: t) = (c.toNat, 1) := by
   simp [decodeRune, first_ascii c h]
 
